@@ -391,8 +391,10 @@ def run(ctx):
         # regression of the zoom defect (fix: 93dd666): levels of 29 rows / 50 columns zoomed by 3 read outside the map
         cases.append(gen_case(rng, {"rows": 87, "cols": 150, "bands": 1, "masks": False, "sf": 3, "n": 2, "ws": 3,
                                     "disp": (-6, 3), "marge": 1, "pre": [], "post": []}))
-        for _ in range(40 if quick else 600):
-            cases.append(gen_case(rng))
+        for i in range(40 if quick else 600):
+            c = gen_case(rng)
+            c["reused_machine"] = (i % 3 == 0)
+            cases.append(c)
         if not quick:
             # a 63-row coarse level zoomed by 3: scipy and the exact formula differ on a tie (output row 47)
             cases.append(gen_case(rng, {"rows": 189, "cols": 64, "bands": 1, "masks": True, "sf": 3, "n": 2, "ws": 3,
@@ -406,6 +408,20 @@ def run(ctx):
         left, right, cfg = build_inputs(case)
         left0, right0 = copy.deepcopy(left), copy.deepcopy(right)
         m = pu.spy_machine()
+        if case.get("reused_machine"):
+            # the machine object already ran ANOTHER multiscale pipeline (other scale_factor, larger marge, other
+            # number of scales): nothing of that run may show in this one (C01/C18: any history on one machine)
+            import random as _random
+            wcase = gen_case(_random.Random(4242), {"rows": 17, "cols": 22, "bands": 1, "masks": False,
+                                                    "sf": 5 - case["sf"], "n": 2, "ws": 3, "disp": (-6, 6),
+                                                    "marge": case["marge"] + 2, "pre": [], "post": []})
+            wl, wr, wcfg = build_inputs(wcase)
+            try:
+                pandora.run(m, wl, wr, copy.deepcopy(wcfg))
+            except Exception as exc:  # pylint: disable=broad-except
+                ctx.broken_obligation("warm-up run on the reused machine raised", f"{type(exc).__name__}: {exc}")
+            m.trace.clear()
+            ctx.count("runs_on_a_reused_machine")
         rec = instrument(m)
         try:
             out_l, out_r = pandora.run(m, left, right, copy.deepcopy(cfg))
